@@ -211,6 +211,29 @@ func c11Child() {
 			}
 		}(g)
 	}
+	// one more caller does nothing but ask the engine for forced merges, before, while and after Close
+	if engine0 != nil {
+		wg.Add(1)
+		go func() {
+			defer wg.Done()
+			for k := 0; ; k++ {
+				select {
+				case <-stopAll:
+					return
+				default:
+				}
+				call(99, k, "forcemerge", func() error {
+					ctx, cancel := context.WithTimeout(context.Background(), 300*time.Millisecond)
+					defer cancel()
+					if err := engine0.ForceMerge(ctx, nil); err != nil {
+						return err
+					}
+					return errVoid
+				})
+				time.Sleep(2 * time.Millisecond)
+			}
+		}()
+	}
 	time.Sleep(closeAfter)
 	// two goroutines close concurrently: the second must get the closed error (or succeed idempotently), never panic
 	var cwg sync.WaitGroup
